@@ -258,14 +258,19 @@ fn reader_case_filtered(world: u64, plan: &Plan, out: &mut Out) {
     w.exec(&Op::Init);
     if w.pool.len() < 2 { return; }
     let (a, b) = (w.pool[0].clone(), w.pool[1].clone());
+    // a second lock script whose args extend a's: one prefix search for `a` covers the cells of both registered scripts, so a rollback
+    // that is not ONE commit for all scripts shows as an answer with the cells of only one of them
+    let a2 = { let mut args: Vec<u8> = a.args().raw_data().to_vec(); args.push(0x77); a.clone().as_builder().args(ckb_types::bytes::Bytes::from(args).pack()).build() };
     w.storage.update_filter_scripts(vec![
+        crate::storage::ScriptStatus { script: a2.clone(), script_type: ScriptType::Lock, block_number: 0 },
         crate::storage::ScriptStatus { script: a.clone(), script_type: ScriptType::Lock, block_number: 0 },
         crate::storage::ScriptStatus { script: b.clone(), script_type: ScriptType::Type, block_number: 0 }], crate::storage::SetScriptsCommand::All);
     let top = 5u64;
     let n_txs = 60 + (world % 3) * 40;
     let txs: Vec<packed::Transaction> = (0..n_txs).map(|i| {
         let output = packed::CellOutput::new_builder().capacity((100_0000_0000u64 + i).pack()).lock(a.clone()).type_(Some(b.clone()).pack()).build();
-        let raw = packed::RawTransaction::new_builder().outputs(vec![output].pack()).outputs_data(vec![ckb_types::bytes::Bytes::new().pack()].pack()).version((world as u32).pack()).build();
+        let output2 = packed::CellOutput::new_builder().capacity((200_0000_0000u64 + i).pack()).lock(a2.clone()).build();
+        let raw = packed::RawTransaction::new_builder().outputs(vec![output, output2].pack()).outputs_data(vec![ckb_types::bytes::Bytes::new().pack(), ckb_types::bytes::Bytes::new().pack()].pack()).version((world as u32).pack()).build();
         packed::Transaction::new_builder().raw(raw).build()
     }).collect();
     let raw = packed::RawHeader::new_builder().number(top.pack()).timestamp((T0 + world).pack()).build();
@@ -277,10 +282,12 @@ fn reader_case_filtered(world: u64, plan: &Plan, out: &mut Out) {
         with_data: Some(false), group_by_transaction: Some(grouped) };
     let count_txs = |rpc: &BlockFilterRpcImpl| -> Option<u64> { rpc.get_transactions(key(), crate::service::Order::Asc, 1000u32.into(), None).ok().map(|p| p.objects.len() as u64) };
     let count_cells = |rpc: &BlockFilterRpcImpl| -> Option<u64> { rpc.get_cells(key(), crate::service::Order::Asc, 1000u32.into(), None).ok().map(|p| p.objects.len() as u64) };
+    let plain_key = || crate::service::SearchKey { script: a.clone().into(), script_type: crate::service::ScriptType::Lock, filter: None, with_data: Some(false), group_by_transaction: None };
+    let count_prefix = |rpc: &BlockFilterRpcImpl| -> Option<u64> { rpc.get_cells(plain_key(), crate::service::Order::Asc, 1000u32.into(), None).ok().map(|p| p.objects.len() as u64) };
     let rpc0 = mk_rpc(&w.storage);
-    let (t_without, c_without) = (count_txs(&rpc0).unwrap_or(0), count_cells(&rpc0).unwrap_or(0));
+    let (t_without, c_without, p_without) = (count_txs(&rpc0).unwrap_or(0), count_cells(&rpc0).unwrap_or(0), count_prefix(&rpc0).unwrap_or(0));
     w.storage.filter_block(block.clone());
-    let (t_with, c_with) = (count_txs(&rpc0).unwrap_or(0), count_cells(&rpc0).unwrap_or(0));
+    let (t_with, c_with, p_with) = (count_txs(&rpc0).unwrap_or(0), count_cells(&rpc0).unwrap_or(0), count_prefix(&rpc0).unwrap_or(0));
     w.storage.rollback_to_block(top);
     if t_with == t_without { return; }
     let stop = Arc::new(std::sync::atomic::AtomicBool::new(false));
@@ -300,11 +307,12 @@ fn reader_case_filtered(world: u64, plan: &Plan, out: &mut Out) {
     let mut bad: Vec<String> = Vec::new();
     for _ in 0..reads {
         if let Some(t) = count_txs(&rpc) { *seen.entry(("get_transactions", t)).or_insert(0) += 1; if t != t_with && t != t_without && bad.len() < 3 { bad.push(format!("get_transactions returned {} entries (without the block: {}, with it: {})", t, t_without, t_with)); } }
+        if let Some(c) = count_prefix(&rpc) { *seen.entry(("get_cells (prefix over two scripts)", c)).or_insert(0) += 1; if c != p_with && c != p_without && bad.len() < 3 { bad.push(format!("get_cells over the cells of two registered scripts returned {} cells (without the block: {}, with it: {})", c, p_without, p_with)); } }
         if let Some(c) = count_cells(&rpc) { *seen.entry(("get_cells", c)).or_insert(0) += 1; if c != c_with && c != c_without && bad.len() < 3 { bad.push(format!("get_cells returned {} cells (without the block: {}, with it: {})", c, c_without, c_with)); } }
     }
     stop.store(true, std::sync::atomic::Ordering::Relaxed);
     let cycles = writer.join().unwrap_or(0);
-    let oracle = if bad.is_empty() { Ok(()) } else { Err(format!("[C17-reader-saw-mixed-state] a query with filter.script saw a part of block #{}: {}; no store state ever held that", top, bad.join("; "))) };
+    let oracle = if bad.is_empty() { Ok(()) } else { Err(format!("[C17-reader-saw-mixed-state] a query over two indexes saw a part of block #{}: {}; no store state ever held that", top, bad.join("; "))) };
     out.case(&format!("reader-filtered-{}", world), &["reader", "filter.script"], "(VN 1)", &Val::n(1), oracle,
         &format!("world {}: {} get_transactions{} and {} get_cells replies with filter.script while another thread indexed and rolled back a block of {} matching cells {} times; (query, entries) seen: {:?}",
             world, reads, if grouped { " (grouped)" } else { "" }, reads, n_txs, cycles, seen));
